@@ -138,13 +138,13 @@ def replay_shape():
 def edit_obligations(rep):
     from mindsdb_sql.parser.ast import Identifier, Join, Select, Star, Constant
     fn = f'{QP}:QueryPlanner.prepare_integration_select._prepare_integration_select'
-    combos = list(itertools.product(('ident', 'other'), (False, True), (False, True), ('plain', 'join', 'nofrom'), (False, True), ('str', 'star')))
-    for kind, is_table, is_target, parent, has_alias, last in combos:
-        if kind == 'other' and (has_alias or last == 'star' or parent != 'plain'):
+    combos = list(itertools.product(('ident', 'other'), (False, True), (False, True), ('plain', 'join', 'nofrom'), (False, True), ('str', 'star'), (2, 3, 4)))
+    for kind, is_table, is_target, parent, has_alias, last, nparts in combos:
+        if kind == 'other' and (has_alias or last == 'star' or parent != 'plain' or nparts != 2):
             continue
-        tag = f'{kind}.table{int(is_table)}.target{int(is_target)}.{parent}.alias{int(has_alias)}.{last}'
+        tag = f'{kind}.table{int(is_table)}.target{int(is_target)}.{parent}.alias{int(has_alias)}.{last}' + ('' if nparts == 2 else f'.parts{nparts}')
 
-        def run(ex, kind=kind, is_table=is_table, is_target=is_target, parent=parent, has_alias=has_alias, last=last):
+        def run(ex, kind=kind, is_table=is_table, is_target=is_target, parent=parent, has_alias=has_alias, last=last, nparts=nparts):
             from vlib.pysym import models
             import z3
             LOWER = z3.Function('str.lower', z3.StringSort(), z3.StringSort())
@@ -161,8 +161,8 @@ def edit_obligations(rep):
                 node = SymObj({Identifier}, 'node', prov='param')
                 node.closed = True
                 lastp = 'col' if last == 'str' else SymObj({Star}, 'star', prov='param')
-                parts = ex.param_container(['tbl', lastp])      # first part is not the integration: only the aliasing edit is in question here
-                ex.assume(LOWER(z3.StringVal('tbl')) != database.t)
+                parts = ex.param_container(['other_db', 'sch', 'tbl', lastp][-nparts:])      # first part is not the integration: only the aliasing edit is in question here
+                ex.assume(LOWER(z3.StringVal(parts[0])) != database.t)
                 alias = SymObj({Identifier}, 'old_alias', prov='param') if has_alias else None
                 node.fields.update(parts=parts, alias=alias, parentheses=False)
             else:
